@@ -207,7 +207,7 @@ def guard_mut(ctx: Ctx, chk) -> None:
                 chk.instance(rule)
                 if g is None:
                     g = CFG(f.node)
-                stmt_nodes = [x for x in g.nodes_where(lambda x, node=node: any(y is node for y in ast.walk(x.ast)))]
+                stmt_nodes = [x for x in g.nodes_where(lambda x, node=node: x.contains(node))]
                 ukey = f"{f.fq}::{base}[{key}]::{norm(_stmt_of(ctx, f, node))[:60]}"
                 if not stmt_nodes:
                     continue
